@@ -374,8 +374,8 @@ func c02(c *core.Ctx) {
 		"multi-octet edits, splices with a second message under the same keys, SK bodies of 0..icv+16 octets, foreign key sets, swapped-direction keys, reflection; distinct = (suite, role, header mode, tamper kind, position class); "+
 		"non-trivial = rejected with an error and no Decrypt event in the spy trace (or handled as unprotected with an empty trace). All 12 position classes must be observed.")
 	c.Info("assumptions", "acceptance with HMAC-collision probability (<= 2^-96) is treated as never || spies wrap the exported interface-typed fields Encr_i/Encr_r/Integ_i/Integ_r")
-	c.Family("cells-exhaustive", c.N(36*6, 36*150), func(k *core.Case) { c02Cell(k, k.Index%36, true) })
-	c.Family("cells-sampled", c.N(36*12, 36*400), func(k *core.Case) { c02Cell(k, k.Index%36, false) })
+	c.Family("cells-exhaustive", c.N(36*6, 36*2000), func(k *core.Case) { c02Cell(k, k.Index%36, true) })
+	c.Family("cells-sampled", c.N(36*12, 36*6000), func(k *core.Case) { c02Cell(k, k.Index%36, false) })
 	req := []string{"genuine_accepted", "exhaustive_bitflip_messages", "rejected_cross-key", "rejected_reflection", "handled_as_unprotected", "rejected_short-sk-body"}
 	for _, pc := range allPosClasses {
 		req = append(req, "pos_"+pc)
